@@ -3,7 +3,8 @@
 Every rule is decided on *values*.  R1 - R3 (verifier/c14_geo.py) *run* the anchored functions with the interpreter of verifier/c14_np.py on inputs
 with concrete shapes and symbolic entries (a 5x3 coordinate-system record with a general rotation, an (n, 3) grid array, a USET table with scalar
 points, q-set members and grids of every output-system type) and compare what is returned with the geometric meaning - never with a spelling.
-R4 evaluates formrbe3 on symbols (verifier/c14_sem.py) and looks at the values that reach the ordering steps."""
+R4 evaluates formrbe3 on symbols (verifier/c14_sem.py) and looks at the values that reach the ordering steps.  R5 (verifier/c14_fit.py) runs
+rbcoords on rigid-body blocks of grids in general frames (on symbols) and at exact witness frames (numbers)."""
 from __future__ import annotations
 
 import ast
@@ -141,17 +142,26 @@ EXPLANATION = ("Static, decided on values: the anchored functions are *executed*
                "the grid's local position, zeros elsewhere, for a vector and a grid-id reference point, and skips a rotation only on the polar axis "
                "(witness table of off-axis points, exact numbers); (R3) rbgeom's 6x6 block per grid is [[I, -[r x]], [0, I]] about a scalar, vector, (1, 3) or "
                "default reference, the zero short cut is taken only for the zero vector, rbmove composes with rbgeom; (R4) formrbe3 orders rows / columns "
-               "against the USET index in table order.")
+               "against the USET index in table order; (R5) rbcoords, run on blockdiag(M, M) [[I, -[p x]], [0, I]] for grids in a general frame M, in "
+               "the reference frame and with zero rows, returns p for each grid (its own block, its own frame; exact solve) with zero deviations, and - "
+               "at exact witness frames tilted by 1e-2 ... 1e-6, half / quarter turns, a permutation, where every test the function makes has a truth "
+               "value - bypasses the least-squares fit only where the location is still right to 1e-7 x distance (a tolerance on the diagonal of the "
+               "3x3 block does not bound its off-diagonal terms).")
 MANIFEST = {
     "text": "Thin partial claim decided statically: (R1) forward/inverse point maps are algebraic inverses for rectangular, cylindrical and spherical systems "
             "(any orientation and origin), with a sound divisor selection in the spherical inverse; (R2) rbgeom_uset expresses every grid in its own output "
             "system: rectangular step, local position, cylindrical/spherical unit-vector frames applied to both row triplets, type codes 2/3, rotations "
             "skipped only at the true polar axis, scalar points and q-set grids left zero, vector and grid-id reference points; (R3) rbgeom is theta x r about "
             "the reference point, the shift is skipped only for the zero vector, rbmove composes with rbgeom; (R4) formrbe3 sorts against the USET table in "
-            "table order. "
-            "Not decided: reference-chain resolution (mkusetcoordinfo / build_coords), rbcoords, the least-squares solve of formrbe3, replace_basic_cs.",
+            "table order; (R5) rbcoords recovers each grid's location from its own block in its own frame (general rotation, reference frame, zero "
+            "rows), reports zero deviations for exactly rigid modes, and bypasses the least-squares fit only for frames where the location stays "
+            "right to 1e-7 x distance (witness frames tilted by 1e-2 ... 1e-6, half / quarter turns). "
+            "Not decided: reference-chain resolution (mkusetcoordinfo / build_coords), the least-squares solve of formrbe3, replace_basic_cs, "
+            "rbcoords on modes that are not rigid (its deviation report), floating-point conditioning of the fit.",
     "note": "Trusted: CPython ast; verifier/e2_formula.py; verifier/c14_np.py (model of the Python / numpy / pandas operations the anchored functions "
-            "use; mksetpv, mkdofpv and - inside rbgeom_uset / rbmove - rbgeom are modelled by their documented meaning); verifier/c14_sem.py. "
+            "use; mksetpv, mkdofpv and - inside rbgeom_uset / rbmove - rbgeom are modelled by their documented meaning; lstsq / solve / inv / pinv of a square "
+            "matrix are the exact solution where the determinant does not vanish identically, the minimum-norm solution zero for the zero matrix; "
+            "np.allclose / isclose are the comparisons |a - b| <= atol + rtol |b|); verifier/c14_sem.py. "
             "atan2(k sin u, k cos u) = u is used for k > 0 (R > 0, 0 < theta < 180 deg: away from the polar singularities, as in the property's domain). "
             "Guards are refuted, never proved, at the points of a finite witness table (exact rational arithmetic; square roots to 1e-30).",
     "technique": "static symbolic execution (concrete shapes, symbolic entries) and composition of the coordinate maps and rigid-body blocks; exact "
